@@ -302,6 +302,7 @@ func (c *Ctx) writeEvidence(verifDir string, nOK, nKnown, nBad int) {
 		"helpers_interpreted_inline":     InlinedHelpers(),
 		"pure_functions_splitting_paths": PureSplit(),
 		"constant_tables":                ConstTables(),
+		"renamed_fields":                 RenamedFields(),
 		"exhaustive":                     true,
 		"checker_cmd":                    "./run.sh " + c.Prop + " " + c.Tier,
 		"evaluations":                    len(c.Obs),
